@@ -9,6 +9,9 @@ pub mod c08;
 pub mod c09;
 pub mod c10;
 pub mod c11;
+pub mod c12;
+pub mod c13;
+pub mod c16;
 pub mod c17;
 pub mod c18;
 pub mod tools_sm2;
@@ -30,6 +33,9 @@ pub fn run(prop: &str, ctx: &mut Ctx, extra: &[String]) -> bool {
         "C09" => c09::run(ctx),
         "C10" => c10::run(ctx),
         "C11" => c11::run(ctx),
+        "C12" => c12::run(ctx),
+        "C13" => c13::run(ctx),
+        "C16" => c16::run(ctx),
         "C17" => c17::run(ctx),
         "C18" => c18::run(ctx),
         _ => return false,
